@@ -17,6 +17,7 @@ fn once(case: &Value, run: &Run) -> Acc {
         "views" => crate::checks::views::replay(case, run),
         "schedule" => crate::checks::purity::replay_schedule(case, run),
         "history" => crate::checks::purity::replay_history(case, run),
+        "free-running" => crate::checks::purity::replay_free_running(case, run),
         "update-history" => crate::checks::purity::replay_update_history(case, run),
         "static" => crate::checks::purity::replay_static(case, run),
         "entry-points" => {
